@@ -74,21 +74,112 @@ class _Held:
         self.arr = arr
 
 
+def source_names():
+    """Names of the locals at which the annotation points of this contract are anchored, READ FROM THE CURRENT SOURCE by the part they play (so that renaming
+    one of them does not detach the contract): the pair assigned from np.unravel_index (the chosen edge), the matrix read at that pair inside the loop (the
+    distances), the dict handed to DataFrame.from_dict, the local assigned from Tree.from_data_frame.  Anything not found keeps its baseline name."""
+    import ast as _ast
+
+    out = dict(i="i", j="j", dis="dis", dic="dic", t="t")
+    try:
+        from pyvc import extract
+
+        node = extract.find(f"{MST}:{FN}")[0]
+    except Exception:  # reported when the carrier is verified, not at import time
+        return out
+
+    def called(x, attr):
+        return isinstance(x, _ast.Call) and ((isinstance(x.func, _ast.Attribute) and x.func.attr == attr) or (isinstance(x.func, _ast.Name) and x.func.id == attr))
+
+    loops = [x for x in node.body if isinstance(x, _ast.For)]
+    for st in _ast.walk(node):
+        if not isinstance(st, _ast.Assign) or len(st.targets) != 1:
+            continue
+        tg = st.targets[0]
+        if called(st.value, "unravel_index") and isinstance(tg, _ast.Tuple) and len(tg.elts) == 2 and all(isinstance(e, _ast.Name) for e in tg.elts):
+            out["i"], out["j"] = tg.elts[0].id, tg.elts[1].id
+        if called(st.value, "from_data_frame") and isinstance(tg, _ast.Name):
+            out["t"] = tg.id
+        if called(st.value, "from_dict") and st.value.args and isinstance(st.value.args[0], _ast.Name):
+            out["dic"] = st.value.args[0].id
+    if loops:
+        pair = (out["i"], out["j"])
+        read = {x.value.id for x in _ast.walk(loops[0]) if isinstance(x, _ast.Subscript) and isinstance(x.ctx, _ast.Load) and isinstance(x.value, _ast.Name)
+                and isinstance(x.slice, _ast.Tuple) and tuple(getattr(e, "id", None) for e in x.slice.elts) == pair}
+        before = {t.id for st in node.body[: node.body.index(loops[0])] if isinstance(st, _ast.Assign) for t in st.targets if isinstance(t, _ast.Name)}
+        if len(read & before) == 1:
+            out["dis"] = (read & before).pop()
+    return out
+
+
+SRC = dict(i="i", j="j", dis="dis", dic="dic", t="t")  # filled by register()
+ROLES = ("pid", "acc", "conn", "mask", "dis")
+_ROLE_CACHE = {}
+
+
+def find_roles(v):
+    """Which local of the carrier plays which part in the loop, found by WHAT IT IS and not by what it is called (a renamed local stays attached where
+    the source re-anchoring of pyvc/align.py has no baseline text to align with, or the rename came with other edits):
+      mask  the boolean (n, n) matrix;          dis   the real (n, n) matrix that exists when the loop is reached (a matrix built per iteration is not a candidate);
+      conn  the boolean 1-D array;              acc   the real 1-D array;
+      pid   the integer 1-D array that does not start as all zeros (the child counter does: see the coupling invariant), i.e. whose cells are -1 before the loop.
+    A part with no candidate or several keeps its baseline name (the contract then reports that the carrier changed shape, as before)."""
+    mine = {nm: x for nm, x in v.items() if not nm.startswith(("g_", "_"))}
+    out = {}
+
+    def only(role, cands):
+        cands = [nm for nm in cands]
+        out[role] = cands[0] if len(cands) == 1 else (role if role in v or not cands else None)
+
+    m2 = {nm: x for nm, x in mine.items() if isinstance(x, X.M2)}
+    only("mask", [nm for nm, x in m2.items() if x.kind == "bool"])
+    only("dis", [nm for nm, x in m2.items() if x.kind == "real"])
+    if isinstance(v.get(SRC["dis"]), X.M2) and v[SRC["dis"]].kind == "real":
+        out["dis"] = SRC["dis"]  # the matrix the loop reads at the chosen pair (read from the source)
+    v1 = {nm: x for nm, x in mine.items() if isinstance(x, X.V1) and not isinstance(x, X.M2)}
+    only("conn", [nm for nm, x in v1.items() if x.kind == "bool"])
+    only("acc", [nm for nm, x in v1.items() if x.kind == "real"])
+    probe = z3.Int("role_probe")
+    only("pid", [nm for nm, x in v1.items() if x.kind == "int" and z3.is_true(z3.simplify(z3.Implies(probe > 0, X.sel1(x.arr, probe) == -1)))])
+    # candidates for the child counter (coupling invariant): the integer arrays with one cell per row that are all zero when the loop is reached - as the ghost count is.
+    # (Any other integer array in the frame - an index array of the pre-processing, say - is not a candidate: the invariant could not tell it from the counter.)
+    n = v[out["dis"]].nz() if out.get("dis") in v and isinstance(v[out["dis"]], X.M2) else None
+    out["counters"] = [nm for nm, x in v1.items() if x.kind == "int" and n is not None and z3.is_true(z3.simplify(x.nz() == n))
+                       and z3.is_true(z3.simplify(X.sel1(x.arr, probe) == 0))]
+    return out
+
+
+def roles(v):
+    """role -> local name; decided when the loop is reached (the arrays hold their initial contents there) and kept for the rest of the run of this carrier text"""
+    r = _ROLE_CACHE.get("roles")
+    if r is not None and all(r[x] in v for x in ROLES):
+        return r
+    f = find_roles(v)
+    if all(f.get(x) is not None and f[x] in v for x in ROLES):
+        _ROLE_CACHE["roles"] = f
+        return f
+    return {x: (f.get(x) or x) for x in ROLES}
+
+
 class St:
     """z3 view of the loop state held in the carrier's variables (program + ghost)."""
 
     def __init__(self, v):
         me = v["self"]
+        rl = roles(v)
+        v = dict(v, **{x: v[rl[x]] for x in ROLES if rl[x] in v})
         self.K = _iv(me.fields["furcations"])
         self.ex = to_z3(me.fields["exclude_soma"], "bool")
         self.bf = to_z3(me.fields["bf"], "real")
-        self.n = _iv(v["n"])
+        self.n = v["dis"].nz() if isinstance(v.get("dis"), X.M2) else _iv(v["n"])  # the number of rows of the distance matrix (= points.shape[0], proved at `an-n-by-n-matrix`)
         self.k = _iv(v["_k0"]) if "_k0" in v else None
         # furc: the GHOST child count g_nk (maintained by the ghost step), not the program's own counter: which local array of the
         # carrier counts the children (and under which name) is left to the coupling invariant `some-program-array-counts-the-children`
         self.pid, self.acc, self.furc, self.conn, self.mask, self.dis = (v[x] for x in ("pid", "acc", "g_nk", "conn", "mask", "dis"))
         self.pos, self.perm, self.crank, self.kid, self.depth = (v[x] for x in ("g_pos", "g_perm", "g_crank", "g_kid", "g_depth"))
         self.counters = [x for nm, x in v.items() if not nm.startswith("g_") and isinstance(x, X.V1) and x.kind == "int"]
+        if rl.get("counters"):
+            self.counters = [v[nm] for nm in rl["counters"] if nm in v]
 
     FIELDS = ("pid", "acc", "furc", "conn", "mask", "dis", "pos", "perm", "crank", "kid", "depth")
 
@@ -272,7 +363,7 @@ def step_hints():
 def _pending(E, v):
     """the name-based trigger `asserts_after["i"]` also fires at `mask[i, :] = True`: only the first firing of an
     iteration (the assignment of the pair itself) is the annotation point"""
-    return "i" in v and E.ghost.get("c17-annotated") is not v["i"]
+    return SRC["i"] in v and E.ghost.get("c17-annotated") is not v[SRC["i"]]
 
 
 def after_pick(which):
@@ -280,7 +371,7 @@ def after_pick(which):
         if not _pending(E, v):
             return True
         s = St(v)
-        i, j = _iv(v["i"]), _iv(v["j"])
+        i, j = _iv(v[SRC["i"]]), _iv(v[SRC["j"]])
         a, b = _q("a", "b")
         if which == "chosen-edge-joins-connected-unsaturated-to-unconnected":
             goal = z3.And(s.inr(i), s.inr(j), s.cand(i, j))
@@ -304,7 +395,7 @@ def after_pick(which):
             old = s.kid.arr
             s.kid.arr = z3.Store(old, i, rk, j)
             s.depth.arr = z3.Store(s.depth.arr, j, s.Depth(i) + 1)
-            E.ghost["c17-annotated"] = v["i"]
+            E.ghost["c17-annotated"] = v[SRC["i"]]
             return True
         raise KeyError(which)
 
@@ -322,12 +413,22 @@ def after_dis(which):
 
         if E.ghost.get("c17-dis-annotated"):
             return True
-        dis, P = v["dis"], v["points"]
+        dis, P = v[SRC["dis"]], v["points"]
         if not (isinstance(dis, X.M2) and dis.kind == "real" and isinstance(P, X.Points)):
             return False
         n = P.nz()
         a, b = z3.Ints("ed_a ed_b")
         inr = z3.And(0 <= a, a < n, 0 <= b, b < n)
+        if which == "the-cloud-is-the-soma-followed-by-every-input-point-in-input-order":
+            # first clause of the property ("contains every input point exactly once, plus the given soma"), stated where the cloud the loop works on is
+            # complete: whatever the carrier did to the input before (dropping, deduplicating, re-ordering, stacking rows), the rows handed to the loop are
+            # the soma followed by input row 0, 1, 2 ... - nothing dropped, nothing added.  Emitted under the NAME AND KIND of the postcondition whose
+            # cloud part it is (obligations of equal name are merged): here the context is the straight-line code before the loop, so a carrier that
+            # drops a point is answered with a counter-model; the postcondition itself (over the columns handed to the DataFrame) follows from it.
+            goal = z3.simplify(cloud_is_input(P, o))
+            E.prove(f"{FN}/post/rows-are-the-input-points-once-each-in-order", goal, "postcondition",
+                    "the cloud the loop works on = (soma,) + input points, row by row (stated before the loop: no loop state among the hypotheses)")
+            return goal
         if which == "an-n-by-n-matrix":
             return z3.And(dis.nz() == n, dis.mz() == n)
         if which == "every-entry-is-the-euclidean-distance-of-the-two-points":
@@ -358,6 +459,11 @@ def after_dis(which):
                           ("symmetric", z3.ForAll([a, b], ED(a, b) == ED(b, a), patterns=[ED(a, b)])),
                           ("zero-on-the-diagonal", z3.ForAll([a], ED(a, a) == 0, patterns=[ED(a, a)]))):
                 prove_from(E, f"{FN}/distance-matrix/euclidean-distance-is-{nm}", [defn] + rs, g)
+            # weakening of the context (always sound): the quantified axioms of row selections made while the cloud was prepared (P[mask], np.unique, np.delete ...)
+            # have served - what the clauses above say about the cloud is established; the loop only needs the number of rows
+            gone = {h.get_id() for h in E.ghost.get("c17-selection-axioms") or []}
+            if gone:
+                E.pc[:] = [h for h in E.pc if not (isinstance(h, z3.ExprRef) and h.get_id() in gone)]
             dis.arr = X.lam2(lambda p, q: ED(p, q))  # equal to the proved contents on all rows / columns in range, by the definition of edist
             E.ghost["c17-dis-annotated"] = True
             return True
@@ -366,7 +472,22 @@ def after_dis(which):
     return f
 
 
-AFTER_DIS = ["an-n-by-n-matrix", "every-entry-is-the-euclidean-distance-of-the-two-points", "computed-without-cancellation-of-rounded-operands",
+def cloud_is_input(P, o):
+    """the (n, 3) cloud P is the input of the call row by row: the given soma (if any) followed by every input point, in input order"""
+    pts, soma = o["points"], o["soma"]
+    n0, n = pts.nz(), P.nz()
+    a = z3.Int("cl_a")
+    conj = [n == (n0 + 1 if soma is not None else n0)]
+    for c in range(3):
+        if soma is None:
+            conj.append(z3.ForAll([a], z3.Implies(z3.And(0 <= a, a < n), z3.Select(P.cols[c], a) == z3.Select(pts.cols[c], a))))
+        else:
+            conj.append(z3.Select(P.cols[c], z3.IntVal(0)) == to_z3(soma.items[c], "real"))
+            conj.append(z3.ForAll([a], z3.Implies(z3.And(0 < a, a < n), z3.Select(P.cols[c], a) == z3.Select(pts.cols[c], a - 1))))
+    return z3.And(*conj)
+
+
+AFTER_DIS = ["the-cloud-is-the-soma-followed-by-every-input-point-in-input-order", "an-n-by-n-matrix", "every-entry-is-the-euclidean-distance-of-the-two-points", "computed-without-cancellation-of-rounded-operands",
              "renamed-to-the-abstract-distance-function"]
 
 
@@ -430,7 +551,7 @@ def post(which):
         a, b = _q("a", "b")
         me = v["self"]
         names, types = v["names"], me.fields["types"]  # `names`: the local after the (deprecated) keyword was resolved
-        dic = v["dic"].items
+        dic = v[SRC["dic"]].items
         if which == "every-point-is-connected":
             return z3.ForAll([a], z3.Implies(s.inr(a), s.Conn(a)))
         if which == "parent-table-is-a-tree-rooted-at-0":
@@ -443,7 +564,7 @@ def post(which):
             idc, xs = dic[names.id], [dic[names.x], dic[names.y], dic[names.z]]
             n0 = pts.nz()
             given = o["names"]
-            conj = [n == (n0 + 1 if soma is not None else n0), dic[names.pid] is v["pid"], tuple(names) == tuple(given if given is not None else me.fields["names"]),
+            conj = [n == (n0 + 1 if soma is not None else n0), dic[names.pid] is s.pid, tuple(names) == tuple(given if given is not None else me.fields["names"]),
                     set(dic) == set(names), len(E.warn_log) == (0 if given is None else 1)]
             conj += [zint(c.n) == n for c in [idc] + xs]
             conj.append(z3.ForAll([a], z3.Implies(s.inr(a), X.sel1(idc.arr, a) == a)))
@@ -685,6 +806,7 @@ def register(R: Registry):
     # only adds the result shape, so that no other carrier's call sites change.  sort_tree / _sort_tree / DictSWC.copy are inlined (real
     # code), sort_nodes_impl enters through the contract proved under C05.
     local = {FDF: Contract(FDF, returns=fdf_result, **fdf_contract())}
+    SRC.update(source_names())
     after_t = ["every-point-is-connected", "parent-table-is-a-tree-rooted-at-0", "ghost-definitions-for-sorting"]
     after_i = ["chosen-edge-joins-connected-unsaturated-to-unconnected",
                "chosen-edge-minimises-length-plus-bf-times-path-length-over-exactly-the-candidates", "ghost-step"]
@@ -697,7 +819,7 @@ def register(R: Registry):
         loops={0: dict(invariant=[(x, inv(x)) for x in INVS], modifies=["g_pos", "g_perm", "g_crank", "g_kid", "g_depth", "g_nk"])},
         options=dict(
             registry=_Overlay(R, local),
-            asserts_after={"dis": [(x, after_dis(x)) for x in AFTER_DIS], "i": [(x, after_pick(x)) for x in after_i], "t": [(x, after_tree(x)) for x in after_t]},
+            asserts_after={SRC["dis"]: [(x, after_dis(x)) for x in AFTER_DIS], SRC["i"]: [(x, after_pick(x)) for x in after_i], SRC["t"]: [(x, after_tree(x)) for x in after_t]},
             hints={"safety/argmin-some-unmasked-entry": argmin_hint, "loop-step/chosen-edge-joins-connected-unsaturated-to-unconnected": argmin_hint, "loop0/preserved/every-attachment-so-far-was-greedy": greedy_hint, **step_hints()},
         ),
         notes="n symbolic; dis abstract (edist >= 0, symmetric, zero diagonal); bf, K, exclude_soma, sort symbolic; names=None, and one concrete non-default SWCNames for the deprecated keyword. "
